@@ -376,9 +376,66 @@ func c07Concurrent(ev *vlib.Evidence, driver string, idx int) {
 	}
 }
 
+// c07SustainedAccrual: a wallet whose hosts keep earning (several goroutines
+// crediting it without pause, so that the persistent driver's optimistic
+// transactions conflict again and again) while it withdraws over and over.
+// No fee, no minimum: at quiescence everything that was ever credited has
+// either been paid or is still there - exactly.
+func c07SustainedAccrual(ev *vlib.Evidence, driver string, idx int) {
+	r := vlib.Rand("C07-sustained-"+driver, idx)
+	cw := newC07World(driver, feeCfg{Name: "none"}, "nil", idx%9)
+	defer cw.w.Close()
+	w := cw.w
+	creditors := 3 + r.Intn(4)
+	withdrawals := 100 + r.Intn(100)
+	var stop int32
+	var wg sync.WaitGroup
+	credited := make([]*big.Int, creditors)
+	for c := 0; c < creditors; c++ {
+		credited[c] = new(big.Int)
+		wg.Add(1)
+		go func(c int) {
+			defer wg.Done()
+			amt := big.NewInt(int64(1000 + c))
+			for atomic.LoadInt32(&stop) == 0 {
+				var err error
+				if c%2 == 0 {
+					err = w.RawStore.AddAccountBalance(cw.acct, amt)
+				} else {
+					err = w.RawStore.AddNodeBalance(cw.node, amt)
+				}
+				if err == nil {
+					credited[c].Add(credited[c], amt)
+				}
+			}
+		}(c)
+	}
+	refused := 0
+	for k := 0; k < withdrawals; k++ {
+		if err := cw.withdraw(); err != nil {
+			refused++
+		}
+	}
+	atomic.StoreInt32(&stop, 1)
+	wg.Wait()
+	owed := new(big.Int)
+	for _, c := range credited {
+		owed.Add(owed, c)
+	}
+	log := w.SettleLog()
+	paid := paidTotal(log, cw.acct)
+	remaining := cw.balance()
+	desc := fmt.Sprintf("sustained %s creditors=%d withdrawals=%d idx=%d", driver, creditors, withdrawals, idx)
+	ev.Case(desc, len(log) > 1)
+	ev.Count("sustained-accrual-withdrawals", int64(len(log)))
+	if new(big.Int).Add(paid, remaining).Cmp(owed) != 0 {
+		ev.Violate("sustained:"+driver+":paid-plus-remaining-differs-from-credited", map[string]interface{}{"case": desc, "credited": owed.String(), "paid": paid.String(), "remaining": remaining.String(), "settlements": len(log), "refused": refused})
+	}
+}
+
 func TestC07(t *testing.T) {
 	ev := vlib.NewEvidence("C07", "fault_enumeration",
-		"sequential accrue/withdraw histories on one wallet (fee in {none, constant, 1%}, minimum in {nil,0,5000,1e18}, balances around the minimum, optional deposit) with the settlement failing at attempt k for every k in 0..4 (0 = never); oracle per withdrawal: paid = balance - fee exactly once, nothing left to withdraw, refused/failed => nothing paid and balance unchanged, conservation paid+fees+remaining = deposit+accrued; concurrent: 2..8 racing withdrawals (+0..2 accruers) with the settle handler holding the window open, checked for paid+remaining <= owed and with porcupine against the sequential withdraw/accrue model; non-trivial = at least one payment was made; distinct = distinct traces")
+		"sequential accrue/withdraw histories on one wallet (fee in {none, constant, 1%}, minimum in {nil,0,5000,1e18}, balances around the minimum, optional deposit) with the settlement failing at attempt k for every k in 0..4 (0 = never); oracle per withdrawal: paid = balance - fee exactly once, nothing left to withdraw, refused/failed => nothing paid and balance unchanged, conservation paid+fees+remaining = deposit+accrued; concurrent: 2..8 racing withdrawals (+0..2 accruers) with the settle handler holding the window open, checked for paid+remaining <= owed and with porcupine against the sequential withdraw/accrue model; sustained: 3-6 goroutines crediting the wallet and its node without pause while it withdraws 100-200 times (no fee, no minimum): paid + remaining = credited exactly; non-trivial = at least one payment was made; distinct = distinct traces")
 	ev.Assume("the settle handler replaces the deposit with newBalance on success, as the contract does")
 	for _, driver := range vlib.Drivers() {
 		for failAt := 0; failAt <= 4; failAt++ {
@@ -388,6 +445,9 @@ func TestC07(t *testing.T) {
 		}
 		for i := 0; i < vlib.Scale(60, 1500); i++ {
 			c07Concurrent(ev, driver, i)
+		}
+		for i := 0; i < vlib.Scale(3, 60); i++ {
+			c07SustainedAccrual(ev, driver, i)
 		}
 	}
 	finish(t, ev)
